@@ -84,10 +84,15 @@ ROLE_INFO = {
     "wda": (True, "a", "double"),
     "wcR": (True, "a", "commit"), "wrR": (False, "a", "rollback"),  # opened with writer(replacement=True)
     "rd": (False, "n", "rollback"), "rdw": (False, "n", "with"),
+    # reader(id=k) (found or KeyError, both legitimate for k = 1, 2), reader(id=0) and reader(serial=0): falsy but given,
+    # must be looked up (and not found), never treated as "no argument"
+    "rdi0": (False, "n", "rollback"), "rdi1": (False, "n", "rollback"), "rdi2": (False, "n", "rollback"),
+    "rds0": (False, "n", "rollback"),
     "rdd": (False, "n", "double"),  # reader ended, then a second rollback()/commit() that must raise AlreadyEnded
 }
 ROLES = tuple(ROLE_INFO)
-READERS = ("rd", "rdw", "rdd")
+READERS = ("rd", "rdw", "rdd", "rdi0", "rdi1", "rdi2", "rds0")
+LOOKUP = {"rdi0": ("id", 0), "rdi1": ("id", 1), "rdi2": ("id", 2), "rds0": ("serial", 0)}
 REPLACEMENT = ("wcR", "wrR")
 
 
@@ -204,6 +209,7 @@ class Observer:
         self.reader_obs = []  # (tid, version id, version content, seen)
         self.hist = {}
         self.blocked_on_wait = set()
+        self.lookup_failed = set()  # readers whose reader(id=..)/reader(serial=..) raised KeyError
         self.failing = set()  # writers during whose commit the pruning policy raised
         self.policy_calls = 0
         self.pre = {}  # tid -> (zone.nodes, last version) when its end section began
@@ -501,7 +507,25 @@ def run_schedule(roles, mode, chooser, max_steps=None, policy=None):
         def reader_prog(t, role):
             def prog():
                 sch.mark("r-call")
-                r = zone.reader()
+                if role in LOOKUP:
+                    what, k = LOOKUP[role]
+                    try:
+                        if what == "id":
+                            r = zone.reader(k) if t % 2 else zone.reader(id=k)  # positional / keyword
+                        else:
+                            r = zone.reader(None, k) if t % 2 else zone.reader(serial=k)
+                    except KeyError:
+                        obs.lookup_failed.add(t)
+                        sch._micro(sch.current())
+                        sch.mark("r-done")
+                        return
+                    if what == "serial" or k == 0:
+                        obs.bad("C12/readers/lookup-should-fail", f"reader {t}: reader({what}={k}) returned version {r.version.id} "
+                                                                   f"although no version has that {what}")
+                    elif r.version.id != k:
+                        obs.bad("C12/readers/wrong-version", f"reader {t}: reader(id={k}) returned version {r.version.id}")
+                else:
+                    r = zone.reader()
                 sch._micro(sch.current())
                 sch.op(("rret", r.version.id, content_of(r.version.nodes)))
                 sch.mark("r-body")
@@ -573,7 +597,8 @@ def run_schedule(roles, mode, chooser, max_steps=None, policy=None):
                     fails.append(("C12/readers-atomic/partial-or-unknown-version", f"reader {t} saw {seen} in version {vid}; committed history {hist}"))
         obs.emit(0, "fin")
         obs.states[-1] = "A" + sl(obs.admitted) + "C" + sl(obs.committed) + "D" + ("1" if finished else "0")
-        res = {"model_roles": [r + "!" if t in obs.failing else r for t, r in enumerate(roles)], "recs": obs.recs, "states": obs.states, "fails": fails, "choices": list(sch.choices),
+        res = {"model_roles": [("rdx" if t in obs.lookup_failed else ("rdi%d" % LOOKUP[r][1] if r in LOOKUP else (r + "!" if t in obs.failing else r)))
+                               for t, r in enumerate(roles)], "recs": obs.recs, "states": obs.states, "fails": fails, "choices": list(sch.choices),
                "steps": sch.nsteps, "choice_points": sch.nchoice_points, "switches": sch.switches, "hist": obs.hist,
                "deadlock": sch.deadlock, "finished": finished, "sched": sch}
     finally:
@@ -630,7 +655,7 @@ def gen_roles(rng):
     nw = rng.choice([2, 2, 3, 3, 3, 4, 4, 5])
     nr = rng.choice([0, 0, 1, 1, 2, 3])
     roles = ([rng.choice(["wca", "wca", "wca", "wcr", "wra", "wra", "wcn", "wwa", "wxa", "wda", "wcR", "wrR"]) for _ in range(nw)]
-             + [rng.choice(["rd", "rd", "rdw", "rdd"]) for _ in range(nr)])
+             + [rng.choice(["rd", "rd", "rd", "rdw", "rdd", "rdi1", "rdi2", "rdi0", "rds0"]) for _ in range(nr)])
     return rng.shuffle(roles)
 
 
@@ -639,7 +664,7 @@ BOUNDARY_ROLES = [
     ["wca", "wca"], ["wca", "wra"], ["wra", "wca"], ["wcn", "wca"], ["wca", "wca", "wca"], ["wra", "wra", "wca"],
     ["wca", "rd"], ["wca", "wca", "rd"], ["wca", "wcr", "rd", "rd"], ["wca", "wca", "wca", "wca", "wca", "rd", "rd", "rd"],
     ["wxa", "wca"], ["wxa", "wca", "wca"], ["wwa", "wwa"], ["wda", "wca"], ["wcn", "wca", "wca"], ["wca", "rdw", "rd"],
-    ["wca"] * 8, ["wca", "wra"] * 4, ["wca", "rdd"],
+    ["wca"] * 8, ["wca", "wra"] * 4, ["wca", "rdd"], ["wca", "rdi1", "rdi2"], ["wca", "wca", "rdi2", "rd"], ["wca", "rdi0", "rds0"],
     ["wca", "wca", "wca", "wca"], ["wca", "wcR"], ["wcR", "wca", "rd"], ["wca", "wrR", "wca"], ["wca", "wcR", "wca", "rd"],
 ]
 
@@ -796,6 +821,8 @@ def impl_of_op(op: str):
     """re-run the schedule recorded in the op line (`@mode/choices`) on the implementation; returns its state line"""
     toks = op.split(" ")
     roles = [x.rstrip("!") for x in toks[1].split(",")]
+    if "rdx" in roles:
+        raise ValueError("the op line does not say which lookup the failed reader made; use the replay file's case")
     parts = toks[2][1:].split("/")
     mode, ch, pol = parts[0], (parts[1] if len(parts) > 1 else ""), (parts[2] if len(parts) > 2 else "-")
     choices = [] if ch in ("", "-") else [int(x) for x in ch.split(".")]
